@@ -12,6 +12,12 @@ Control of the saver (deterministic, no threads, no real waiting):
 A second group of scenarios runs with the *real* aiofiles (thread pool) and the built-in transport
 kinds (TCP over loopback, serial with in-memory streams, MQTT client with an in-memory broker stub).
 
+A third group are *histories*: two to four contexts of the SAME Gateway and transport objects, an earlier one ended
+at each fault position (load / connect / body / disconnect / final save fails, cancelled) with the saver anywhere,
+the file edited by another tool in between; every clause of the property is judged for every session
+(`history_scenarios`, `run_gated(carry=…)`), and the built-in transport kinds are taken through a reconnect loop
+(connect fails, the cause goes away, the same objects are entered again: `run_real(retry_after_failed_connect=True)`).
+
 Every await of the harness that could block is guarded by a real-time timeout; a hang is a violation.
 """
 
@@ -390,14 +396,42 @@ async def settle(ctl: Controller, clock: VirtualClock, tasks_of) -> None:
             return
 
 
-async def run_gated(path: str, pos: str, faults: dict, periodic_fails_at=None, extra_ticks=0) -> dict:
-    """Runs one scenario on the real Gateway; returns the observation."""
+def _dumped(canonical) -> dict:
+    """node id -> dumped node, of a canonical registry text ('' / None: nothing)."""
+    return json.loads(canonical) if canonical else {}
+
+
+async def edit_file_between_sessions(path: str, session: int, edit: str) -> None:
+    """What happens to the persistence file between two contexts of a history, outside the library:
+    'add' = another tool adds a node to what the file holds (an unreadable file is first restored from a backup of
+    the initial registry, an empty file stays empty but for the new node); 'none' = the file is left as it is if it
+    holds a registry (an empty or unreadable file is treated as under 'add')."""
+    held = file_canon(path)
+    if edit == "none" and held:
+        return
+    schema = NodeSchema()
+    nodes = v0_nodes() if held is None else {int(k): schema.load(v) for k, v in _dumped(held).items()}
+    nodes[200 + session] = Node(200 + session, 17, "2.1", sketch_name=f"added to the file before session {session}")
+    await asyncio.wait_for(Persistence(nodes, path).save(), GUARD)
+
+
+async def run_gated(path: str, pos: str, faults: dict, periodic_fails_at=None, extra_ticks=0, carry: dict | None = None,
+                    session: int = 0, edit: str = "add") -> dict:
+    """Runs one scenario (one context statement) on the real Gateway; returns the observation.
+
+    `carry` (histories): a dict that lives as long as the history; the Gateway and transport objects of the first
+    session are kept in it and *the same objects* are entered again by every later session.  Each session has its own
+    virtual clock, gate plan and fault flags; between sessions the file is edited as `edit` says."""
     v0 = v0_nodes()
+    later = bool(carry) and "gateway" in carry
     if faults.get("load"):
         with open(path, "w", encoding="utf-8") as f:
             f.write('{"1": {"node_id": 1, "node_ty')
+    elif later:
+        await edit_file_between_sessions(path, session, edit)
     else:
         await asyncio.wait_for(Persistence(v0, path).save(), GUARD)
+    file0 = file_canon(path) if later else canon(v0)     # what the file holds when the context is entered
     clock = VirtualClock()
     proxy = AsyncioProxy(clock)
     plan = POSITIONS[pos][0]
@@ -417,9 +451,16 @@ async def run_gated(path: str, pos: str, faults: dict, periodic_fails_at=None, e
         if plan is not None:
             await asyncio.wait_for(ctl.reached.wait(), GUARD)
 
-    transport = FlakyTransport(connect_fails=bool(faults.get("connect")), disconnect_fails=bool(faults.get("disconnect")),
-                               connect_waits=reach if faults.get("connect") else None,
-                               connect_suspends=pos != "not-started", disconnect_suspends=pos != "not-started")
+    behaviour = dict(connect_fails=bool(faults.get("connect")), disconnect_fails=bool(faults.get("disconnect")),
+                     connect_waits=reach if faults.get("connect") else None,
+                     connect_suspends=pos != "not-started", disconnect_suspends=pos != "not-started")
+    if later:
+        transport = carry["transport"]          # the same transport object; what it does this time is set anew
+        for k, v in behaviour.items():
+            setattr(transport, k, v)
+        transport.calls = []
+    else:
+        transport = FlakyTransport(**behaviour)
     obs: dict = {"entered": False, "loaded_ok": None}
     body_parked = asyncio.Event()
     self_cancel = cancel_before_first_suspension(pos, faults)
@@ -428,18 +469,32 @@ async def run_gated(path: str, pos: str, faults: dict, periodic_fails_at=None, e
     gateway = None
     reg_at_exit = None
     with mock.patch.object(pers_mod, "aiofiles", FakeFiles(ctl)), mock.patch.object(pers_mod, "asyncio", proxy):
-        gateway = Gateway(transport, Config(persistence_file=path))
+        gateway = carry["gateway"] if later else Gateway(transport, Config(persistence_file=path))
+        if carry is not None:
+            carry["gateway"], carry["transport"] = gateway, transport
+
+        reg_at_entry: list = []
+
+        def holds_the_file() -> bool:
+            """Every node the file held at entry is in the registry as the file had it."""
+            now = _dumped(canon(gateway.nodes))
+            return all(now.get(k) == v for k, v in _dumped(file0).items())
 
         async def context():
             nonlocal reg_at_exit
             try:
                 async with gateway:
                     obs["entered"] = True
-                    obs["loaded_ok"] = canon(gateway.nodes) == canon(v0)
+                    obs["loaded_ok"] = holds_the_file() if later else canon(gateway.nodes) == canon(v0)
+                    reg_at_entry.append(canon(gateway.nodes))
                     await reach()
                     if extra_ticks:
                         await clock.advance_to(clock.now + extra_ticks, lambda: settle(ctl, clock, lambda: proxy.created))
-                    gateway.nodes[42] = Node(42, 17, "2.0", sketch_name="added in the body")
+                    if session:
+                        gateway.nodes[42 + session] = Node(42 + session, 17, "2.0", sketch_name=f"added in the body of session {session}")
+                    else:
+                        gateway.nodes[42] = Node(42, 17, "2.0", sketch_name="added in the body")
+                    obs["mutated"] = True
                     reg_at_exit = canon(gateway.nodes)
                     if faults.get("cancel"):
                         body_parked.set()
@@ -490,22 +545,50 @@ async def run_gated(path: str, pos: str, faults: dict, periodic_fails_at=None, e
         except Exception:  # noqa: BLE001
             pass
     content = file_canon(path)
+    if later:
+        # the model numbers registry versions: 0 = as loaded at entry, 1 = after the body's change.  The registry of a
+        # reused Gateway may hold more than the file did at entry (load adds to what an earlier context left in it), so
+        # "holds the registry as of exit" is version 1 if the body changed it and version 0 if not; "holds the registry
+        # as it was when the body began" and "holds what it held at entry" are version 0
+        label = "truncated" if content == "" else "unreadable" if content is None \
+            else ("holds:1" if obs.get("mutated") else "holds:0") if content == reg_at_exit \
+            else "holds:0" if content == file0 or content in reg_at_entry else "other"
+    else:
+        label = "truncated" if content == "" else "holds:0" if content == canon(v0) else "holds:1" if content == reg_at_exit \
+            else "unreadable" if content is None else "other"
     obs.update({
         "outcome": classify(exc), "error": None if exc is None else f"{type(exc).__name__}: {exc}"[:200],
         "disconnect_called": "disconnect" in transport.calls, "connect_called": "connect" in transport.calls,
         "started": bool(proxy.created), "saver_saves": ctl.saver_saves, "final_save_done": ctl.main_saves_done > 0,
-        "file": "truncated" if content == "" else "holds:0" if content == canon(v0) else "holds:1" if content == reg_at_exit
-                else "unreadable" if content is None else "other",
+        "file": label,
         "file_is_registry_at_exit": content == reg_at_exit,
         "starts": [t for who, kind, t in ctl.log if who == "saver" and kind == "open:w"],
         "vnow": clock.now,
+        "calls": list(transport.calls),
+        "registry_holds_file_as_of_entry": file0 is not None and holds_the_file(),
+        "session": session,
     })
     return obs
 
 
-def oracle(corr: Corr, what: str, case: dict, obs: dict, faults: dict) -> bool:
-    """C16 restated over one observed run."""
+def oracle(corr: Corr, what: str, case: dict, obs: dict, faults: dict, pos: str | None = None) -> bool:
+    """C16 restated over one observed run (one context statement).  With `pos` (gated scenarios: the saver's
+    position is known and the file layer counts the saves) the clauses about entry are judged as well."""
     bad = []
+    if pos is not None and obs["entered"]:
+        # "entering the gateway context loads the file, saves the registry once entered and then at least every 15
+        # minutes; leaving the context ... disconnects the transport, writes the final registry to the file"
+        if not obs["connect_called"]:
+            bad.append("entered but the transport was never asked to connect")
+        if pos != "not-started" and obs["outcome"] != "hang":
+            need = obs["vnow"] // FIFTEEN_MINUTES + 1
+            if len(obs["starts"]) < need:
+                bad.append(f"{len(obs['starts'])} save(s) started in the {obs['vnow']} s after entry, at least {need} required")
+        if not faults.get("final") and not obs["started"]:
+            if not obs["file_is_registry_at_exit"]:
+                bad.append(f"the file does not hold the registry as of exit (file: {obs['file']})")
+            if not obs["final_save_done"]:
+                bad.append("no final save was performed")
     if obs["outcome"] == "hang":
         bad.append("the context statement did not complete (timeout)")
     if obs["outcome"] == "cancelled" and not faults.get("cancel"):
@@ -547,11 +630,70 @@ def compare_model(corr: Corr, case: dict, obs: dict, m: dict) -> None:
              ("file", obs["file"] if obs["outcome"] != "loadErr" else m.get("file"), m.get("file")),
              ("save starts", ",".join(str(t) for t in obs["starts"]), m.get("starts")),
              ("main finished", "finished", m.get("main"))]
+    if "sessions" in case:
+        # a session of a history: did the registry take in what the file held when the context was entered?
+        pairs.append(("file loaded into the registry", "1" if obs["registry_holds_file_as_of_entry"] else "0", m.get("loaded")))
     for name, a, b in pairs:
         if a != b:
             diffs.append(f"{name}: implementation {a!r}, model {b!r}")
     if diffs:
         corr.disagree("lifecycle observation differs from the model: " + "; ".join(diffs), {**case, "observed": obs, "model": m})
+
+
+# ---- histories: several contexts of the SAME Gateway object ------------------------------------
+
+# how an earlier context of the history ended (every fault position of the property, alone and combined)
+EARLIER_ENDINGS = [
+    {"connect": True}, {"load": True}, {"body": True}, {"disconnect": True}, {"final": True}, {"cancel": True},
+    {"connect": True, "final": True}, {"body": True, "disconnect": True, "final": True}, {"cancel": True, "disconnect": True},
+    {},
+]
+
+
+def history_scenarios(rng, tier: str) -> list[tuple[list[tuple[str, dict, str]], str]]:
+    """Histories = lists of sessions (saver position at exit, faults of that session, what happens to the file before
+    the session).  Systematic part: every way an earlier context can end x where the saver was then, followed by a
+    context that has to be in order again, the later context's exit placed at every saver position in turn; failure
+    after failure; then random histories of 2-4 sessions."""
+    positions = list(POSITIONS)
+    out = []
+    turn = 0
+    for first_pos in ("sleeping", "not-started", "write-before"):
+        for ending in EARLIER_ENDINGS:
+            later_pos = positions[turn % len(positions)]
+            turn += 1
+            out.append(([(first_pos, dict(ending), "add"), (later_pos, {}, "add" if turn % 4 else "none")], "history-grid"))
+    # the retry itself fails once more (in the same and in another way), and the third context must be in order
+    for k, ending in enumerate(EARLIER_ENDINGS[:-1]):
+        other = EARLIER_ENDINGS[(k + 3) % (len(EARLIER_ENDINGS) - 1)]
+        second = ending if k % 2 == 0 else other
+        out.append(([("sleeping+300", dict(ending), "add"), (positions[(k + 5) % len(positions)], dict(second), "add"),
+                     (positions[(k + 7) % len(positions)], {"body": k % 3 == 0}, "add")], "history-grid"))
+    # the later context ends with a fault of its own after an earlier failed entry
+    for k, ending in enumerate(({"connect": True}, {"load": True})):
+        for later in ({"body": True}, {"disconnect": True}, {"cancel": True}, {"final": True}, {"connect": True}):
+            out.append(([("sleeping", dict(ending), "add"), (positions[(turn + k) % len(positions)], dict(later), "add")], "history-grid"))
+            turn += 1
+    for _ in range(12 if tier == "quick" else 150):
+        sessions = []
+        for _k in range(rng.randint(2, 4)):
+            r = rng.random()
+            if r < 0.2:
+                f = {"connect": True, "final": rng.random() < 0.3}
+            elif r < 0.3:
+                f = {"load": True}
+            else:
+                f = {k: rng.random() < 0.3 for k in ("body", "disconnect", "final", "cancel")}
+            sessions.append((rng.choice(positions), {k: v for k, v in f.items() if v}, "none" if rng.random() < 0.25 else "add"))
+        out.append((sessions, "history-random"))
+    return out
+
+
+def session_view(pos: str, faults: dict, edit: str, obs: dict | None) -> dict:
+    d = {"position": pos, "faults": faults, "file_before": edit}
+    if obs is not None:
+        d["outcome"] = obs["outcome"]
+    return d
 
 
 # ---- cadence ---------------------------------------------------------------------------------
@@ -711,8 +853,13 @@ class MemoryMqtt(mqtt_mod.MQTTTransport):
 
 
 async def run_real(path: str, kind: str, fail_connect: bool, wait_first_save: bool, body_raises: bool = False,
-                   subscribe_fails: bool = False, sessions: int = 1) -> dict:
-    """The lifecycle with the real aiofiles thread pool and a built-in transport kind (offline)."""
+                   subscribe_fails: bool = False, sessions: int = 1, retry_after_failed_connect: bool = False) -> dict:
+    """The lifecycle with the real aiofiles thread pool and a built-in transport kind (offline).
+
+    `retry_after_failed_connect`: a reconnect loop.  The first context fails to connect (`fail_connect`), what it left
+    behind is recorded under `failed_entry`; the cause is removed (server up again, port present, broker reachable),
+    another tool adds a node to the file, and `sessions` further contexts are entered on the SAME Gateway and transport
+    objects; the returned observation is that of the last one."""
     v0 = v0_nodes()
     await asyncio.wait_for(Persistence(v0, path).save(), GUARD)
     server = None
@@ -749,6 +896,18 @@ async def run_real(path: str, kind: str, fail_connect: bool, wait_first_save: bo
         disconnected["v"] = "called"
         return await orig_disconnect()
     transport.disconnect = spy_disconnect  # type: ignore[method-assign]
+    orig_connect = transport.connect
+    connect_raised: list = []
+
+    async def spy_connect():
+        try:
+            result = await orig_connect()
+        except BaseException as e:
+            connect_raised.append(e)
+            raise
+        connect_raised.append(None)
+        return result
+    transport.connect = spy_connect  # type: ignore[method-assign]
     for p in patches:
         p.start()
     before = asyncio.all_tasks()
@@ -756,6 +915,7 @@ async def run_real(path: str, kind: str, fail_connect: bool, wait_first_save: bo
     obs: dict = {"entered": False}
     gateway = Gateway(transport, Config(persistence_file=path))
     reg_at_exit = None
+    file_before_retry = None
     try:
         async def context(session: int):
             nonlocal reg_at_exit
@@ -763,8 +923,11 @@ async def run_real(path: str, kind: str, fail_connect: bool, wait_first_save: bo
             try:
                 async with gateway:
                     obs["entered"] = True
-                    if session == 0:
+                    if session == 0 and file_before_retry is None:
                         obs["loaded_ok"] = canon(gateway.nodes) == canon(v0)
+                    elif session == 0:
+                        now = _dumped(canon(gateway.nodes))
+                        obs["loaded_ok"] = all(now.get(k) == v for k, v in _dumped(file_before_retry).items())
                     if wait_first_save:
                         await asyncio.sleep(0.03)
                     gateway.nodes[42 + session] = Node(42 + session, 17, "2.0")
@@ -774,6 +937,32 @@ async def run_real(path: str, kind: str, fail_connect: bool, wait_first_save: bo
             finally:
                 if reg_at_exit is None:
                     reg_at_exit = canon(gateway.nodes)
+        if retry_after_failed_connect:
+            first = None
+            try:
+                await asyncio.wait_for(context(-1), GUARD)
+            except BaseException as e:  # noqa: BLE001
+                first = e
+            await asyncio.sleep(0.02)
+            left = [t for t in asyncio.all_tasks() - before if t is not asyncio.current_task() and not t.done()]
+            left_names = sorted({getattr(t.get_coro(), "__qualname__", "?") for t in left})
+            obs["failed_entry"] = {"outcome": classify(first), "entered": obs["entered"],
+                                   "leftover_names": [n for n in left_names if "on_client" not in n and "StreamReaderProtocol" not in n],
+                                   "file_is_registry": file_canon(path) == canon(gateway.nodes)}
+            # the cause of the failure goes away
+            if kind == "tcp":
+                server = await asyncio.start_server(on_client, "127.0.0.1", port)
+            elif kind == "serial":
+                transport._fail = False                # noqa: SLF001
+            elif kind == "mqtt-client":
+                FakeMqttClient.fail_connect = False
+            elif kind == "mqtt-abstract":
+                transport.fail = False
+            else:
+                transport.connect_fails = False
+            await edit_file_between_sessions(path, 1, "add")
+            file_before_retry = file_canon(path)
+            disconnected["v"] = None
         try:
             # the same Gateway / transport objects entered again after they were left (a reconnect)
             for session in range(sessions):
@@ -801,6 +990,7 @@ async def run_real(path: str, kind: str, fail_connect: bool, wait_first_save: bo
     content = file_canon(path)
     obs.update({"outcome": classify(exc), "error": None if exc is None else f"{type(exc).__name__}: {exc}"[:200],
                 "leftover_tasks": len(leftovers_real), "leftover_names": names, "saver_alive": False,
+                "raised_by_transport_connect": exc is not None and bool(connect_raised) and connect_raised[-1] is exc,
                 "disconnect_called": disconnected["v"] == "called", "connect_called": True,
                 "started": True, "final_save_done": content == reg_at_exit,
                 "file_is_registry_at_exit": content == reg_at_exit,
@@ -915,6 +1105,9 @@ def run_c16(ctx) -> Corr:
                 "Gateway with gated file operations and virtual time, each compared with the Lean model's run of the matching "
                 "schedule and with the property's oracle (no task left, disconnect attempted, file == registry as of exit, "
                 "right exception, never CancelledError unless the body was cancelled and no later step failed, no hang); "
+                "histories of 2-4 such contexts on ONE Gateway object (an earlier context ended by each fault position, the "
+                "file edited by another tool in between), every session judged by the whole oracle (+ connect attempted, file "
+                "loaded, saves started >= elapsed//900+1) and compared with the model's run for that session; "
                 "cadence: saves started within [0,T] >= T//900+1 for a list of "
                 "stretches T in virtual time; plus real-aiofiles runs with every built-in transport kind offline. "
                 "non-trivial = the saver exists and is not asleep-and-idle at exit, or a fault is injected")
@@ -925,7 +1118,12 @@ def run_c16(ctx) -> Corr:
     path = os.path.join(scratch, "c16-persistence.json")
 
     scenarios: list[tuple[str, dict, str]] = []
+    corpus_histories = []
     for c in lib.load_corpus("C16"):
+        if "sessions" in c:     # a history: [{"position":…, "faults":{…}, "file_before": "add"|"none"}, …]
+            corpus_histories.append(([(x["position"], dict(x.get("faults", {})), x.get("file_before", "add")) for x in c["sessions"]],
+                                     "corpus:" + c["_file"]))
+            continue
         scenarios.append((c["position"], dict(c.get("faults", {})), "corpus:" + c["_file"]))
     positions = list(POSITIONS)
     for pos in positions:
@@ -965,7 +1163,7 @@ def run_c16(ctx) -> Corr:
             except BaseException as e:  # noqa: BLE001  the harness could not drive this tree to the position
                 corr.violate(f"scenario could not be driven to its position: {type(e).__name__}: {e}"[:300], case)
                 continue
-            ok = oracle(corr, f"exit with the saver at {pos}", case, obs, faults)
+            ok = oracle(corr, f"exit with the saver at {pos}", case, obs, faults, pos)
             hangs += obs["outcome"] == "hang"
             corr.count("position:" + pos)
             corr.count("faults:" + (",".join(sorted(faults)) or "none"))
@@ -978,6 +1176,57 @@ def run_c16(ctx) -> Corr:
                 pending.append((case, obs))
 
     asyncio.run(gated())
+
+    # histories: the same Gateway / transport objects are entered again after a context that ended in each possible
+    # way; every clause of the property is judged for every session, and every session is compared with the model
+    histories = corpus_histories + history_scenarios(rng, ctx.tier)
+
+    async def run_histories():
+        hangs = 0
+        for sessions, origin in histories:
+            if hangs >= 3:
+                corr.count("skipped-after-repeated-hangs")
+                continue
+            carry: dict = {}
+            done: list[dict] = []
+            previous = "first"
+            corr.count(f"history:length:{len(sessions)}")
+            for k, (pos, faults, edit) in enumerate(sessions):
+                faults = {f: v for f, v in faults.items() if v}
+                shown = done + [session_view(pos, faults, edit, None)]
+                case = {"sessions": shown, "failing_session": k, "same_gateway_object": True, "origin": origin}
+                try:
+                    obs = await run_gated(path, pos, faults, carry=carry, session=k, edit=edit)
+                except BaseException as e:  # noqa: BLE001
+                    corr.violate(f"session {k + 1} of a history could not be driven to its position: {type(e).__name__}: {e}"[:300], case)
+                    break
+                done.append(session_view(pos, faults, edit, obs))
+                case = {"sessions": list(done), "failing_session": k, "same_gateway_object": True, "origin": origin}
+                after = "" if k == 0 else f" (entered again after a context that ended with {previous})"
+                ok = oracle(corr, f"session {k + 1} of a history on one Gateway object{after}: exit with the saver at {pos}",
+                            case, obs, faults, pos)
+                corr.count("history:session")
+                corr.count(f"history:session-{k + 1}-after:{previous}")
+                corr.count("history:position:" + pos)
+                if k:
+                    corr.count("history:file-before:" + edit)
+                corr.case(("history", tuple((d["position"], tuple(sorted(d["faults"])), d["file_before"]) for d in done)), True,
+                          {"sessions": list(done), "ok": ok} if k == len(sessions) - 1 else None)
+                if ctx.model_ok:
+                    model_lines.append(f"lnew {fault_bits(faults)} 0 0")
+                    model_lines.append("lrun " + ",".join(model_schedule(pos, faults)))
+                    pending.append((case, obs))
+                previous = obs["outcome"]
+                if obs["outcome"] == "hang":
+                    hangs += 1
+                    break       # what state the objects are in after an abandoned context is not defined
+
+    asyncio.run(run_histories())
+    corr.notes.append("histories (several contexts of one Gateway object, the file edited by another tool in between): the Lean "
+                      "lifecycle model has no operation that carries anything from one context to the next, so every session "
+                      "is compared with the model's run from `init` for that session's faults and saver position (file version 0 "
+                      "= what the file held when the session began) and judged by the oracle; that the state carried by the "
+                      "reused objects does not matter is exactly what is checked")
 
     # cadence
     stretches = sorted({0, 1, 899, 900, 901, 1799, 1800, 2700, 4500, 9000 + 5, 20 * 900, 20 * 900 + 450}
@@ -1037,6 +1286,40 @@ def run_c16(ctx) -> Corr:
                     corr.case(("real2", kind, body_raises), True, None)
                 corr.case(("real", kind, fail_connect, wait_first, body_raises), True,
                           {"transport": kind, "outcome": obs["outcome"], "leftover": obs["leftover_names"]})
+        # a reconnect loop with every transport kind: the first context fails to connect, the cause goes away, another
+        # tool adds a node to the file, the same objects are entered again (once, and twice in a row)
+        for kind in ("flaky", "tcp", "serial", "mqtt-client", "mqtt-abstract"):
+            for again in (1, 2):
+                case = {"transport": kind, "scenario": "connect fails, then the same Gateway object is entered again",
+                        "contexts_after_the_failed_one": again, "file_layer": "real aiofiles"}
+                try:
+                    obs = await run_real(path, kind, True, again == 1, sessions=again, retry_after_failed_connect=True)
+                except BaseException as e:  # noqa: BLE001
+                    corr.violate(f"reconnect scenario crashed: {type(e).__name__}: {e}"[:300], case)
+                    continue
+                fe = obs["failed_entry"]
+                if fe["outcome"] != "connectErr" or fe["entered"] or fe["leftover_names"]:
+                    corr.violate(f"connect failed with transport {kind}: propagated {fe['outcome']}, body ran: {fe['entered']}, "
+                                 f"tasks left: {fe['leftover_names']}", {**case, "observed": obs})
+                if obs["raised_by_transport_connect"] and not obs["entered"]:
+                    # the transport object's own connect() raised again although the cause of the first failure is gone.
+                    # Whether a transport object can be connected after a failed attempt is the transport's business; what
+                    # the property says about the gateway context is "if connecting fails the error propagates and no
+                    # background task is left behind" - that is judged, the refusal itself is reported as an observation
+                    if obs["leftover_names"] or not obs["file_is_registry_at_exit"]:
+                        corr.violate(f"connect failed again with transport {kind} and the context left something behind: tasks "
+                                     f"{obs['leftover_names']}, file: {obs['file']}", {**case, "observed": obs})
+                    note = (f"observation (not judged): after a failed connect the {kind} transport object refuses to connect "
+                            f"again although the cause is gone: {obs['error']}")
+                    if note not in corr.notes:
+                        corr.notes.append(note)
+                    corr.count("transport-retry-refused-by-transport:" + kind)
+                else:
+                    oracle(corr, f"context entered again after a failed connect, transport {kind}", case, obs, {})
+                    if not obs["entered"]:
+                        corr.violate(f"the context could not be entered again after a failed connect, transport {kind}", {**case, "observed": obs})
+                corr.count("transport-retry-after-failed-connect:" + kind)
+                corr.case(("real-retry", kind, again), True, {"transport": kind, "failed_entry": fe["outcome"], "then": obs["outcome"]})
         # a failing subscription is a failing connect for the MQTT kind: "no background task is left behind"
         # (repaired in /repo by 'fix: don't leave the MQTT receive task running when subscribing fails')
         obs = await run_real(path, "mqtt-client", False, False, subscribe_fails=True)
